@@ -223,7 +223,7 @@ class App(object):
             return Response('n %r' % (n,))
         self.app = AppType([Route('/r', ep_ctx, rn), Route('/n', ep_resp), GET('/item', ep_resp),
                             POST('/item', lambda: Response('posted')), Route('/sum/<nums+int>', ep_nums),
-                            Route('/num/<n:int>', ep_n), Route('/flt/<n?float>/x', ep_n)],
+                            Route('/num/<n:int>', ep_n), Route('/flt/<n?float>/x', ep_n), Route('/br/', ep_resp)],
                            middlewares=[mk(0), mk(1), mk(2)], **kw)
 
     def act(self, where):
@@ -460,9 +460,15 @@ def shard(tier, i, n, seed):
             for m, p, want in (('GET', '/nope', 404), ('PUT', '/item', 405), ('GET', '/nope/<b>', 404),
                                ('GET', '/sum/1//2', (200, 404)), ('GET', '/sum/1/x', 404), ('GET', '/num/' + '9' * 5000, (200, 404)),
                                ('GET', '/num/+ 1', 404), ('GET', '/flt/1e400/x', (200, 404)), ('GET', '/flt//x', (200, 404)),
-                               ('GET', '/num/\u0661', (200, 404))):
+                               ('GET', '/num/\u0661', (200, 404)),
+                               # a slash redirect whose query string is raw bytes no charset decodes
+                               ('GET', ('/br', 'name=caf\xe9'), (301, 302, 307, 308)), ('POST', ('/br//', '\xff\xfe=\x80'), (301, 302, 307, 308)),
+                               ('HEAD', ('/br', '%'), (301, 302, 307, 308)), ('GET', ('/br/', 'name=caf\xe9'), 200)):
                 A.ctl.beh = None
-                res = wsgi.call(A.app, p, m, headers={'Accept': accept} if accept else None)
+                q = ''
+                if isinstance(p, tuple):
+                    p, q = p
+                res = wsgi.call(A.app, p, m, query=q, headers={'Accept': accept} if accept else None)
                 acc.evaluated += 1
                 acc.transitions += 1
                 acc.validated += 1
@@ -472,7 +478,7 @@ def shard(tier, i, n, seed):
                 want_codes = want + (403,) if handler == 'other_error' else want
                 if res.raised is not None or res.code not in want_codes or res.sr_calls != 1:
                     acc.violation('C08:builtin-%s:%s' % (want[0], handler), '%s %s under handler %s gave %r raised=%r'
-                                  % (m, p, handler, res.status, res.raised), {'handler': handler, 'path': p, 'method': m})
+                                  % (m, p, handler, res.status, res.raised), {'handler': handler, 'path': p, 'method': m, 'query': q})
     depth = 3 if tier == 'quick' else 4
     for hk, handler in enumerate(('default', 'debug', 'broken_render')):
         run_histories(acc, handler, depth if handler == 'default' else depth - 1, i, n)
@@ -505,7 +511,7 @@ def replay(case):
         return True, 'ok'
     if 'behaviour' not in case:
         A = App(case['handler'])
-        res = wsgi.call(A.app, case['path'], case['method'])
+        res = wsgi.call(A.app, case['path'], case['method'], query=case.get('query', ''))
         return (res.raised is None), 'status %r raised %r' % (res.status, res.raised)
     A = App(case['handler'])
     beh = tuple(case['behaviour'])
